@@ -283,6 +283,14 @@ class ModelDriver:
                 raise Skip("no second model")
             model.merge(right, inplace=True, objective=op.get("obj", "left"))
             return None
+        if a == "MergeNew":
+            right = self.models.get(op["t"])
+            if right is None or op["t"] == s:
+                raise Skip("no second model")
+            self.models[op["t"]] = model.merge(right, inplace=False, objective=op.get("obj", "left"))
+            self.ctx_ids[op["t"]] = []
+            self.detached[op["t"]] = {}
+            return None
         if a == "AddMetabolites":
             ms = [self.new_met(m) for m in op["ms"]]
             model.add_metabolites(ms if len(ms) > 1 else ms[0])
